@@ -133,6 +133,20 @@ CLAIMED = {
         "DESIGN.md §5 C11",
         "Fixed source pool; memoised results may turn a fresh StackOverflow into the value a larger limit gives.",
         "TLA+ request-layer model + TLC-enumerated histories replayed + trace validation of outcomes"),
+    "C12": E("model_checking",
+        "spec/Cli.tla: one run of the tool as a state machine (ParseArgs, ReadInput, Load, BindExt/Tla, Eval, Call, "
+        "Manifest(mode), Write) with a separately enabled failure branch per phase and injected faults; TLC checks the "
+        "contract (exit status set exactly at the end and in {0,1,2}; usage errors = 2; nothing written before the whole "
+        "output is built; exit 0 => complete output = Rendered(mode, value); exit != 0 => stdout empty, no -o file, "
+        "stderr non-empty), the view laws (-S, -y with an independent stream reader, -m, --no-trailing-newline) and the "
+        "configuration laws (extVar exactness, lazy ext code, TLAs by name) over all 25 272 configurations, and emits "
+        "every terminal behaviour; each is replayed against the real binary in a scratch directory: exit status, stdout "
+        "bytes, stderr non-emptiness, created files and their bytes.",
+        "DESIGN.md §5 C12",
+        "Runs as root (permission faults replaced by directory/dangling-link faults); a closed stdout is the recorded "
+        "known finding F8; unused ext code with a syntax error and -m files written before a failing field are left "
+        "open (both outcomes allowed).",
+        "TLA+ model of the CLI run model-checked by TLC + replay of every terminal behaviour against the binary", "tlc+cli"),
     "C13": E("model_checking",
         "spec/Imports.tla: one run of the tool on a directory tree as a state machine (fs with directories, files, "
         "symlinks; -J list; cache by canonical node; loads; thisFile; evaluator stack) with actions for resolution, "
